@@ -98,6 +98,11 @@ func docVariant(kind, id string) *sbom.Document {
 	case "meta":
 		d.Metadata.Name = "metadata-only"
 		d.NodeList = nil
+	case "e1", "e2":
+		// two documents whose encodings have exactly the same length
+		d.Metadata.Name = map[string]string{"e1": "alpha", "e2": "omega"}[kind]
+		d.NodeList.Nodes = []*sbom.Node{{Id: "n", Name: map[string]string{"e1": "abc", "e2": "xyz"}[kind]}}
+		d.NodeList.RootElements = []string{"n"}
 	case "d3":
 		d.Metadata.Name = "three"
 		d.NodeList.Nodes = []*sbom.Node{{Id: "a"}, {Id: "b"}, {Id: "c", Description: strings.Repeat("long description ", 20)}}
